@@ -39,6 +39,21 @@ let ext_of (spec : string) : ext =
   | "sda" -> mk XSubjDirAttrs
   | "nc" | "pc" | "crldp" | "iap" | "fcrl" -> mk XUnchecked
   | "ns" | "aia" | "nscom" | "sct" | "crlreason" | "invdate" | "certissuer" | "unk" | "bcx" | "kux" | "cepre" -> mk XUnknown
+  | "rawoid" ->
+    (* asn1_oid_node_from_base128: at most 5 septets per arc, no leading 0x80, a 5-septet arc must fit 32 bits; a well-formed
+       OID generated here is never one of the recognised ones *)
+    let bytes = List.map int_of_n (bytes_of_hex (arg 2)) in
+    let rec arcs ok cur = function
+      | [] -> ok && cur = []
+      | b :: r ->
+        let cur' = cur @ [b] in
+        if b land 0x80 <> 0 then arcs ok cur' r
+        else
+          let n = List.length cur' in
+          let good = n <= 5 && List.hd cur' <> 0x80 && not (n = 5 && (List.hd cur') land 0x70 <> 0) in
+          arcs (ok && good) [] r in
+    let wf = (match bytes with [] -> false | _ :: rest -> arcs true [] rest) in
+    mk ~ok:wf XUnknown
   | "bad" -> mk ~ok:false XUnknown
   | _ -> failwith "ext kind"
 
@@ -71,7 +86,13 @@ let ctype_of i = match i with
   | 0 -> CT_server_auth | 1 -> CT_client_auth | 2 -> CT_server_kenc | 3 -> CT_client_kenc
   | 4 -> CT_ca | 5 -> CT_root_ca | 6 -> CT_crl_sign | -1 -> CT_none | _ -> CT_invalid
 
-let handle ws = match ws with
+let rec handle ws = match ws with
+  | "seq" :: rest ->
+    let rec split acc cur = function
+      | [] -> List.rev (if cur = [] then acc else List.rev cur :: acc)
+      | "|" :: r -> split (if cur = [] then acc else List.rev cur :: acc) [] r
+      | x :: r -> split acc (x :: cur) r in
+    String.concat " ;; " (List.map handle (split [] [] rest))
   | ["verify"; form; role; depth; now; chain; store] ->
     let r = match role with "0" -> RoleServer | "1" -> RoleClient | _ -> RoleInvalid in
     let ch = list_of chain and st = list_of store in
